@@ -261,6 +261,22 @@ func c10Cases(thorough bool, emit func(c10Case)) {
 			})
 		}
 	}
+	// the full product of signs and sizes over the three context options, on commands that do read a file: a value
+	// that is harmless alone can reach an allocation or an index once another option switches the context path on
+	{
+		vals := []string{"-1", "0", "1", "-9223372036854775808", "100000"}
+		for _, w := range []string{"cat", "grep"} {
+			for _, b := range vals {
+				for _, a := range vals {
+					for _, m := range vals {
+						for _, re := range []string{"regex:noop ", "regex:default line"} {
+							emit(c10Case{Kind: "command", Payload: w + ":before=" + b + ":after=" + a + ":max=" + m + " " + probe + " " + re})
+						}
+					}
+				}
+			}
+		}
+	}
 	// queries
 	qtoks := []string{"select", "from", "where", "group", "by", "order", "rorder", "set", "interval", "limit", "outfile", "append", "logformat",
 		"`", "\"", "`a`", "count(", ")", "count(x)", "==", "eq", "0", "-1", "x", "$a", "=", "csv", "generickv"}
